@@ -547,6 +547,7 @@ def _shift(kind):
             of1 = z3.BoolVal(False)
         cz = simplify(cnt == 0)
         if z3.is_true(cz):
+            x.wr(dst, a)             # flags untouched, but a 32-bit register destination is still zero-extended
             return
         c1 = simplify(cnt == 1)
         if z3.is_false(cz):
